@@ -251,6 +251,11 @@ def check(space, state):
             V.append(viol("strand:subtotal_visibility", "subtotal displayed=%s expected=%s (%s)"
                           % (any(i < 0 for i in ro), has_sub, sub[0])))
         asserted += 1
+        po = [int(x) for x in part.payload_order if not str(x).startswith("ins_")]
+        if po != sorted(i for i in ro if i >= 0):
+            V.append(viol("strand:payload_order", "payload_order lists base rows %r, displayed base rows are %r"
+                          % (po, sorted(i for i in ro if i >= 0))))
+        asserted += 1
         if tuple(part.shape) != (len(ro),) or part.is_empty != (len(ro) == 0):
             V.append(viol("strand:shape", "shape %r / is_empty %r vs order %r" % (part.shape, part.is_empty, ro)))
         ntv = pr and 0 < len([k for k in range(n) if k in ro]) < n
@@ -295,6 +300,12 @@ def check(space, state):
         if want is not None and shown != want:
             V.append(viol("visibility:subtotal:%s" % name, "%s subtotal displayed=%s, expected %s (%s, opposing prune=%s, "
                           "opposing emptiness %r)" % (name, shown, want, sub[which], opp_prune, opp_emp)))
+    # payload_order lists exactly the displayed base rows, in payload order
+    asserted += 1
+    po = [int(x) for x in part.payload_order if not str(x).startswith("ins_")]
+    if po != sorted(i for i in ro if i >= 0):
+        V.append(viol("payload_order:rows", "payload_order lists base rows %r, displayed base rows are %r"
+                      % (po, sorted(i for i in ro if i >= 0))))
     asserted += 1
     if tuple(part.shape) != (len(ro), len(co)) or part.is_empty != (len(ro) == 0 or len(co) == 0):
         V.append(viol("shape", "shape %r / is_empty %r vs orders %r x %r" % (part.shape, part.is_empty, ro, co)))
